@@ -222,6 +222,10 @@ type world struct {
 	finished []logEntry
 	started  int
 
+	// mid, when set, is run once by the renter in the middle of a multi-round RPC:
+	// after it has read the host's intermediate response and before it answers
+	mid func()
+
 	stored []types.Hash256 // sector roots the store holds
 	dummy  [proto4.SectorSize]byte
 }
@@ -374,6 +378,34 @@ func (w *world) quiesce() []logEntry {
 	w.logMu.Unlock()
 	w.started = 0
 	return out
+}
+
+func (w *world) runMid() {
+	if f := w.mid; f != nil {
+		w.mid = nil
+		f()
+	}
+}
+
+// takeFinished waits for the next handler to finish (while another one may still
+// be running and holding a contract lock) and returns its log entry.
+func (w *world) takeFinished() []logEntry {
+	deadline := time.Now().Add(12 * time.Second)
+	for {
+		w.logMu.Lock()
+		if len(w.finished) > 0 {
+			le := w.finished[0]
+			w.finished = w.finished[1:]
+			w.logMu.Unlock()
+			w.started--
+			return []logEntry{le}
+		}
+		w.logMu.Unlock()
+		if time.Now().After(deadline) {
+			panic("host did not finish the interleaved RPC")
+		}
+		time.Sleep(50 * time.Microsecond)
+	}
 }
 
 // storeSector registers a root in the sector store (the RPCs of C08 only ask
